@@ -90,6 +90,8 @@ class C04(Spec):
     def cases(self, rng, tier):
         for c in self.fixed_cases():
             yield c
+        for c in self.scale_cases(rng, tier):
+            yield c
         n = 150 if tier == 'quick' else 3000
         for it in range(n):
             nst = rng.randint(1, 3)
@@ -97,6 +99,9 @@ class C04(Spec):
             c.update(QC.policy_fields(rng.choice(QC.POLICIES), rng, nst))
             c['t0'] = rng.choice([0, 0, 0.5, 1.2345])
             c['stims'] = QC.rand_stims(rng, nst, max_len=9, max_trials=3)
+            if rng.random() < 0.25:
+                # a declared duration longer than the waveform: log entries may then overlap / end out of order
+                rng.choice(c['stims'])['xdur'] = rng.choice([1, 3, 10, 25])
             c['ops'] = []
             c['ops'] = self.history(rng, c, rng.randint(1, 4))
             yield c
@@ -116,6 +121,13 @@ class C04(Spec):
                              't0': rng.choice([0, 0.5]),
                              'stims': [{'src': 'arr', 'len': n_w, 'trials': T + 50, 'delays': [dn]}], 'ops': ops}
                         yield c
+
+    def scale_cases(self, rng, tier):
+        """Many trials, then a pause that reaches far back (bounded logs, early-terminated scans)."""
+        for T, back in ([(5000, 2400)] if tier == 'quick' else [(5000, 2400), (9000, 100), (4200, 7000)]):
+            yield {'kind': 'scale', 'policy': 'fifo', 'keep': 1, 'gsize': 0, 'seed': 0, 'fs': 25000.0, 't0': 0,
+                   'stims': [{'src': 'arr', 'len': 2, 'trials': T + 500, 'delays': [0]}],
+                   'ops': [['pop', 2 * T + 100], ['pause', back], ['resume', back + 3], ['pop', 40]]}
 
     def fixed_cases(self):
         b = {'kind': 'scenario', 'policy': 'fifo', 'keep': 1, 'gsize': 0, 'seed': 0, 'fs': 1000.0, 't0': 0}
